@@ -12,32 +12,34 @@ Proof.
 Qed.
 
 (* every successful parse consumes at least one byte *)
-Theorem spec_shorter f :
-  (forall ls ts rest, p_value f ls = Some (ts, rest) -> (length rest < length ls)%nat) /\
-  (forall ls ts rest, p_members f ls = Some (ts, rest) -> (length rest + 4 <= length ls)%nat) /\
-  (forall ls ts rest, p_elements f ls = Some (ts, rest) -> (length rest + 2 <= length ls)%nat).
+Theorem spec_shorter lim numok f :
+  (forall d ls ts rest, pg_value lim numok f d ls = Some (ts, rest) -> (length rest < length ls)%nat) /\
+  (forall d ls ts rest, pg_members lim numok f d ls = Some (ts, rest) -> (length rest + 4 <= length ls)%nat) /\
+  (forall d ls ts rest, pg_elements lim numok f d ls = Some (ts, rest) -> (length rest + 2 <= length ls)%nat).
 Proof.
   induction f as [|f (IHv & IHm & IHe)]; [repeat split; intros; discriminate|].
   split; [|split].
-  - intros ls ts rest H. cbn [p_value] in H. pose proof (skip_ws_length ls) as L0.
+  - intros d ls ts rest H. cbn [pg_value] in H. pose proof (skip_ws_length ls) as L0.
     destruct (skip_ws ls) as [|c r] eqn:Es; [discriminate|]. cbn [length] in L0.
     destruct (c =? 123).
-    { pose proof (skip_ws_length r) as L1. destruct (skip_ws r) as [|c1 r1]; [discriminate|]. cbn [length] in L1.
+    { destruct (negb (depth_ok lim d)); [discriminate|].
+      pose proof (skip_ws_length r) as L1. destruct (skip_ws r) as [|c1 r1]; [discriminate|]. cbn [length] in L1.
       destruct (c1 =? 125); [inversion H; subst; lia|].
-      destruct (p_members f (c1 :: r1)) as [[ts' rest']|] eqn:E; [|discriminate]. inversion H; subst.
-      pose proof (IHm _ _ _ E). cbn [length] in *. lia. }
+      destruct (pg_members lim numok f (S d) (c1 :: r1)) as [[ts' rest']|] eqn:E; [|discriminate]. inversion H; subst.
+      pose proof (IHm _ _ _ _ E). cbn [length] in *. lia. }
     destruct (c =? 91).
-    { pose proof (skip_ws_length r) as L1. destruct (skip_ws r) as [|c1 r1]; [discriminate|]. cbn [length] in L1.
+    { destruct (negb (depth_ok lim d)); [discriminate|].
+      pose proof (skip_ws_length r) as L1. destruct (skip_ws r) as [|c1 r1]; [discriminate|]. cbn [length] in L1.
       destruct (c1 =? 93); [inversion H; subst; lia|].
-      destruct (p_elements f (c1 :: r1)) as [[ts' rest']|] eqn:E; [|discriminate]. inversion H; subst.
-      pose proof (IHe _ _ _ E). cbn [length] in *. lia. }
+      destruct (pg_elements lim numok f (S d) (c1 :: r1)) as [[ts' rest']|] eqn:E; [|discriminate]. inversion H; subst.
+      pose proof (IHe _ _ _ _ E). cbn [length] in *. lia. }
     destruct (c =? 34).
     { destruct (p_string_body r) as [[b rest']|] eqn:E; [|discriminate]. inversion H; subst.
       pose proof (string_body_shorter _ _ _ E). lia. }
     destruct ((c =? 45) || digit_b c) eqn:Ed.
     { assert (Hc : numchar_b c = true) by (unfold numchar_b; lia).
       cbn [span] in H. rewrite Hc in H. pose proof (span_length numchar_b r) as SL.
-      destruct (span numchar_b r) as [a b]. destruct (json_number (c :: a)); [|discriminate].
+      destruct (span numchar_b r) as [a b]. destruct (json_number (c :: a) && numok (c :: a)); [|discriminate].
       inversion H; subst. lia. }
     destruct (c =? 116).
     { destruct (starts [114; 117; 101] r) eqn:E; [|discriminate]. inversion H; subst. pose proof (starts_shorter _ _ _ E). lia. }
@@ -45,26 +47,78 @@ Proof.
     { destruct (starts [97; 108; 115; 101] r) eqn:E; [|discriminate]. inversion H; subst. pose proof (starts_shorter _ _ _ E). lia. }
     destruct (c =? 110); [|discriminate].
     destruct (starts [117; 108; 108] r) eqn:E; [|discriminate]. inversion H; subst. pose proof (starts_shorter _ _ _ E). lia.
-  - intros ls ts rest H. cbn [p_members] in H. pose proof (skip_ws_length ls) as L0.
+  - intros d ls ts rest H. cbn [pg_members] in H. pose proof (skip_ws_length ls) as L0.
     destruct (skip_ws ls) as [|q r]; [discriminate|]. cbn [length] in L0.
     destruct (negb (q =? 34)); [discriminate|].
     destruct (p_string_body r) as [[k r1]|] eqn:Ek; [|discriminate].
     pose proof (string_body_shorter _ _ _ Ek) as L1. pose proof (skip_ws_length r1) as L2.
     destruct (skip_ws r1) as [|c r2]; [discriminate|]. cbn [length] in L2.
     destruct (negb (c =? 58)); [discriminate|].
-    destruct (p_value f r2) as [[vt r3]|] eqn:Ev; [|discriminate].
-    pose proof (IHv _ _ _ Ev) as L3. pose proof (skip_ws_length r3) as L4.
+    destruct (pg_value lim numok f d r2) as [[vt r3]|] eqn:Ev; [|discriminate].
+    pose proof (IHv _ _ _ _ Ev) as L3. pose proof (skip_ws_length r3) as L4.
     destruct (skip_ws r3) as [|c3 r4]; [discriminate|]. cbn [length] in L4.
     destruct (c3 =? 125); [inversion H; subst; lia|].
     destruct (c3 =? 44); [|discriminate].
-    destruct (p_members f r4) as [[ts' rest']|] eqn:Em; [|discriminate]. inversion H; subst.
-    pose proof (IHm _ _ _ Em). lia.
-  - intros ls ts rest H. cbn [p_elements] in H.
-    destruct (p_value f ls) as [[vt r1]|] eqn:Ev; [|discriminate].
-    pose proof (IHv _ _ _ Ev) as L3. pose proof (skip_ws_length r1) as L4.
+    destruct (pg_members lim numok f d r4) as [[ts' rest']|] eqn:Em; [|discriminate]. inversion H; subst.
+    pose proof (IHm _ _ _ _ Em). lia.
+  - intros d ls ts rest H. cbn [pg_elements] in H.
+    destruct (pg_value lim numok f d ls) as [[vt r1]|] eqn:Ev; [|discriminate].
+    pose proof (IHv _ _ _ _ Ev) as L3. pose proof (skip_ws_length r1) as L4.
     destruct (skip_ws r1) as [|c r2]; [discriminate|]. cbn [length] in L4.
     destruct (c =? 93); [inversion H; subst; lia|].
     destruct (c =? 44); [|discriminate].
-    destruct (p_elements f r2) as [[ts' rest']|] eqn:Em; [|discriminate]. inversion H; subst.
-    pose proof (IHe _ _ _ Em). lia.
+    destruct (pg_elements lim numok f d r2) as [[ts' rest']|] eqn:Em; [|discriminate]. inversion H; subst.
+    pose proof (IHe _ _ _ _ Em). lia.
+Qed.
+
+(* restricting the grammar (nesting limit, number predicate) only removes texts *)
+Theorem pg_relax lim numok f :
+  (forall d ls ts rest, pg_value lim numok f d ls = Some (ts, rest) -> forall d', pg_value None allnum f d' ls = Some (ts, rest)) /\
+  (forall d ls ts rest, pg_members lim numok f d ls = Some (ts, rest) -> forall d', pg_members None allnum f d' ls = Some (ts, rest)) /\
+  (forall d ls ts rest, pg_elements lim numok f d ls = Some (ts, rest) -> forall d', pg_elements None allnum f d' ls = Some (ts, rest)).
+Proof.
+  induction f as [|f (IHv & IHm & IHe)]; [repeat split; intros; discriminate|].
+  split; [|split].
+  - intros d ls ts rest H d'. cbn [pg_value] in *. change (depth_ok None d') with true. cbn [negb].
+    destruct (skip_ws ls) as [|c r]; [discriminate|].
+    destruct (c =? 123).
+    { destruct (negb (depth_ok lim d)); [discriminate|].
+      destruct (skip_ws r) as [|c1 r1]; [discriminate|]. destruct (c1 =? 125); [exact H|].
+      destruct (pg_members lim numok f (S d) (c1 :: r1)) as [[ts' rest']|] eqn:E; [|discriminate].
+      rewrite (IHm _ _ _ _ E (S d')). exact H. }
+    destruct (c =? 91).
+    { destruct (negb (depth_ok lim d)); [discriminate|].
+      destruct (skip_ws r) as [|c1 r1]; [discriminate|]. destruct (c1 =? 93); [exact H|].
+      destruct (pg_elements lim numok f (S d) (c1 :: r1)) as [[ts' rest']|] eqn:E; [|discriminate].
+      rewrite (IHe _ _ _ _ E (S d')). exact H. }
+    destruct (c =? 34); [exact H|].
+    destruct ((c =? 45) || digit_b c).
+    { destruct (span numchar_b (c :: r)) as [num rest']. unfold allnum. rewrite andb_true_r.
+      destruct (json_number num); cbn [andb] in H; [|discriminate]. destruct (numok num); [exact H|discriminate]. }
+    exact H.
+  - intros d ls ts rest H d'. cbn [pg_members] in *.
+    destruct (skip_ws ls) as [|q r]; [discriminate|]. destruct (negb (q =? 34)); [discriminate|].
+    destruct (p_string_body r) as [[k r1]|]; [|discriminate].
+    destruct (skip_ws r1) as [|c r2]; [discriminate|]. destruct (negb (c =? 58)); [discriminate|].
+    destruct (pg_value lim numok f d r2) as [[vt r3]|] eqn:Ev; [|discriminate].
+    rewrite (IHv _ _ _ _ Ev d').
+    destruct (skip_ws r3) as [|c3 r4]; [discriminate|]. destruct (c3 =? 125); [exact H|].
+    destruct (c3 =? 44); [|discriminate].
+    destruct (pg_members lim numok f d r4) as [[ts' rest']|] eqn:Em; [|discriminate].
+    rewrite (IHm _ _ _ _ Em d'). exact H.
+  - intros d ls ts rest H d'. cbn [pg_elements] in *.
+    destruct (pg_value lim numok f d ls) as [[vt r1]|] eqn:Ev; [|discriminate].
+    rewrite (IHv _ _ _ _ Ev d').
+    destruct (skip_ws r1) as [|c r2]; [discriminate|]. destruct (c =? 93); [exact H|].
+    destruct (c =? 44); [|discriminate].
+    destruct (pg_elements lim numok f d r2) as [[ts' rest']|] eqn:Em; [|discriminate].
+    rewrite (IHe _ _ _ _ Em d'). exact H.
+Qed.
+
+Corollary parse_g_relax lim numok data r : parse_g lim numok data = Some r -> parse_json data = Some r.
+Proof.
+  unfold parse_json, parse_g. intro H.
+  destruct (pg_value lim numok (2 * length data + 4) 0 data) as [[ts rest]|] eqn:E; [|discriminate].
+  destruct (pg_relax lim numok (2 * length data + 4)) as (Hv & _ & _).
+  rewrite (Hv _ _ _ _ E 0%nat). exact H.
 Qed.
